@@ -8,7 +8,7 @@ from vlib import penv
 from gunicorn.http import RequestParser
 
 PROPERTY = "C07"
-RULE = ("body (pattern x length, newline-dense, lengths biased to 0/1/1023/1024/1025/2048/8191-8193) x framing "
+RULE = ("body (pattern x length, newline-dense, lengths biased to 0/1/1023/1024/1025/2048/8191-8193/65535-65537/140000) x framing "
         "(Content-Length | chunked with drawn chunk layout, extensions, trailers) x program of read/readline/readlines/"
         "iteration calls with sizes in {None,-1,0,1,2,small,1023,1024,1025,8192,10**6} x segmentation x drain-or-not, "
         "followed by a pipelined request; oracle = call-by-call io.BytesIO, EOF forever, next request parsed with "
@@ -20,7 +20,8 @@ ASSUMPTIONS = [
 BUDGET = {"quick": (16, 1000), "thorough": (16, 30000)}
 
 SIZES = [None, -1, 0, 1, 2, 3, 7, 64, 1023, 1024, 1025, 2047, 2048, 2049, 8192, 10 ** 6]
-LENS = [0, 1, 2, 5, 30, 100, 1022, 1023, 1024, 1025, 1026, 2047, 2048, 2049, 3000, 8191, 8192, 8193, 9000, 20000]
+LENS = [0, 1, 2, 5, 30, 100, 1022, 1023, 1024, 1025, 1026, 2047, 2048, 2049, 3000, 8191, 8192, 8193, 9000, 20000, 65535, 65536, 65537,
+        70000, 140000]
 PATS = ["a", "\n", "ab\n", "\r\n", "x" * 17 + "\n", "line\r\n\r\n0\r\n\r\n", "GET / HTTP/1.1\r\n\r\n", "\n\n\nabc",
         "0123456789" * 10 + "\n", "\xff\x00"]
 
@@ -85,6 +86,8 @@ def build(case):
     pos = 0
     k = 0
     segs = case["segs"]
+    if len(stream) > 30000:
+        segs = [x for x in segs if x >= 1023] or [8192]        # keep huge bodies affordable: no byte-wise feeding
     while pos < len(stream) and len(cuts) < 5000:
         pos += segs[k % len(segs)]
         cuts.append(pos)
@@ -190,7 +193,7 @@ def run_case(case):
                                  expected="PUT /next parsed from the first byte after the body"))
     nontrivial = len(kinds) >= 2 or (stopped_early and not case["drain"])
     classes = ["source:" + case.get("source", "iter"), "framing:" + case["framing"], "drain:%s" % case["drain"], "early-stop:%s" % stopped_early,
-               "kinds:%d" % len(kinds), "len>1024:%s" % (len(body) > 1024), "len>8192:%s" % (len(body) > 8192)]
+               "kinds:%d" % len(kinds), "len>1024:%s" % (len(body) > 1024), "len>8192:%s" % (len(body) > 8192), "len>65536:%s" % (len(body) > 65536)]
     return Outcome(vio, nontrivial, classes,
                    sample={"body_len": len(body), "pat": case["pat"], "framing": case["framing"], "program": case["program"],
                            "segs": case["segs"], "drain": case["drain"], "trace": trace})
